@@ -215,7 +215,7 @@ META = {
     "level": "other",
     "explanation": "V1-V4 for the two SigV2 verifiers with the V2 component vectors (mode constant, raw path, sub-resources, headers, "
                    "virtual-host bucket), the V2 string-to-sign layout as an abstract write trace, dispatch precedence, the normalised expiry "
-                   "comparison, date requirement, get_unique discipline and the sub-resource table (sorted, drawn from the model).",
+                   "comparison, date requirement, get_unique discipline and the sub-resource table (sorted, drawn from the model). Round 4: every occurrence of a signed sub-resource is part of the string to sign (R7: no selector that answers None for a repeated name; found and repaired a genuine defect); header view order (V6).",
     "not_decided": ["which parameters ought to be in the sub-resource list", "header folding", "Date semantics", "completeness as a whole"],
     "assumptions": ["rustc nightly MIR construction"],
 }
